@@ -98,6 +98,9 @@ type Sub struct {
 	Name   string `json:"name"`
 	Min    int    `json:"min"`
 	Parent string `json:"parent"` // "" = directly under the root; a sub-group that is a parent holds no pods
+	// TopoReq: required level of the scenario topology for the pods of THIS sub-group (1-based, 0 = none);
+	// for a parent sub-group it covers the pods of all its descendants
+	TopoReq int `json:"topoReq"`
 }
 
 type Tol struct {
@@ -387,6 +390,9 @@ func BuildPodGroup(sc *Scenario, j int, now time.Time) *enginev2alpha2.PodGroup 
 		if sub.Parent != "" {
 			parent := sub.Parent
 			sg.Parent = &parent
+		}
+		if sub.TopoReq > 0 && sub.TopoReq <= len(sc.Topo.Levels) {
+			sg.TopologyConstraint = &enginev2alpha2.TopologyConstraint{Topology: sc.Topo.Name, RequiredTopologyLevel: sc.Topo.Levels[sub.TopoReq-1]}
 		}
 		pg.Spec.SubGroups = append(pg.Spec.SubGroups, sg)
 	}
